@@ -41,7 +41,9 @@ func c19Reuse(c *ev.Ctx, r *rand.Rand, caseN int) {
 		}
 		shown = nil
 		var res hash.Events
-		if p, _ := ev.Try(func() { res = ancestor.ChooseParents(nil, append(hash.Events{}, options...), []ancestor.SearchStrategy{spy}) }); p != nil {
+		if p, _ := ev.Try(func() {
+			res = ancestor.ChooseParents(nil, append(hash.Events{}, options...), []ancestor.SearchStrategy{spy})
+		}); p != nil {
 			c.Violation("choose-parents-panics", map[string]interface{}{"case": caseN, "round": round, "panic": fmt.Sprint(p)})
 			return
 		}
